@@ -64,12 +64,16 @@ func (c *InternalCron) ScheduleEvent(ctx *core.Context, se *ScheduledEvent) erro
 	// job a context of its own.
 	jobId := eventJobId(ctx, se.Id)
 	ctx = ctx.SubContext()
+	// ... and remember the location itself.  Processing an event moves
+	// the context from ancestor to ancestor, and an error on the way
+	// (a parent that is disabled, say) leaves the context there.
+	loc := ctx.Location()
 
 	fn := func(t time.Time) error {
-		loc := ctx.Location()
 		if loc == nil {
 			return errors.New("no location in ctx")
 		}
+		ctx.SetLoc(loc)
 		fr, err := loc.ProcessEvent(ctx, event)
 		if err != nil {
 			return err
